@@ -738,12 +738,18 @@ def run_histories(part, names, emit=True):
             for i in range(len(av)):
                 part.count("evaluations")
                 part.count("adjustment_history_cases")
-                if kind == "set":
-                    fails = case_history_set(name, i, part)
-                else:
-                    if deck is None:
-                        deck = _deck_with_guides(m, av)
-                    fails = case_history_loaded(name, i, part, deck)
+                try:
+                    if kind == "set":
+                        fails = case_history_set(name, i, part)
+                    else:
+                        if deck is None:
+                            deck = _deck_with_guides(m, av)
+                        fails = case_history_loaded(name, i, part, deck)
+                except HarnessError:
+                    raise
+                except Exception as e:  # noqa: BLE001   the library raised inside a plain add_shape / adjustment history
+                    fails = [("C20|adj-history-raised|MSO_AUTO_SHAPE_TYPE.%s|first=%s|%s" % (name, kind, type(e).__name__),
+                              "the %s history of adjustment %d of %s raised %r" % (kind, i, name, e))]
                 if fails:
                     failed.add(name)
                 if emit:
